@@ -710,8 +710,16 @@ def main(tier, seed):
     for i in range(200 if thorough else 60):
         c = CONFIGS["boot"]
         ops = []
-        for _ in range(rng.randint(2, 8)):
+        remembered = []
+        for _ in range(rng.randint(2, 9)):
+            once = sorted(k for k in set(remembered) if remembered.count(k) == 1)
+            if once and rng.random() < 0.25:
+                k = rng.choice(once)
+                remembered.remove(k)
+                ops.append(("suspend", k, 0))          # taken back before the manager exists
+                continue
             k = rng.choice(c["K"])
+            remembered.append(k)
             ops.append(("rec", k, 0) if k in c["rec"] else ("at", k, rng.choice([0, 1, 1, 2, 2, 3])))
         ops.append(("start", 0, 0))
         ops += random_ops(rng, c, rng.choice([6, 12, 25]), times=(0, 1, 2, 3), deltas=(0, 1, 2), steps=(0, 1, 1, 2, 3))
